@@ -121,6 +121,7 @@ type wWorld struct {
 	timeoutIdx   map[string]wTimeoutInfo                 // bytes signed as MsgSignature -> (view, reported QC block)
 	aggqcs       []hotstuff.AggregateQC                  // aggregate QCs known to the Byzantine coalition
 	timeoutsSeen map[hotstuff.View][]hotstuff.TimeoutMsg
+	crashed      map[NodeID]bool // crashed or silent replicas: send and receive nothing
 }
 
 type wTimeoutInfo struct {
@@ -178,7 +179,7 @@ func (s *wSender) connected(to NodeID) bool {
 
 func (s *wSender) send(id hotstuff.ID, payload any) {
 	for _, nd := range s.w.byID[id] {
-		if nd.id == s.node.id {
+		if nd.id == s.node.id || s.w.crashed[nd.id] || s.w.crashed[s.node.id] {
 			continue
 		}
 		if !s.connected(nd.id) || s.w.rng.Float64() < s.w.dropProb {
@@ -242,7 +243,7 @@ func (s *wSender) Propose(p *hotstuff.ProposeMsg) {
 func (s *wSender) RequestBlock(_ context.Context, h hotstuff.Hash) (*hotstuff.Block, bool) {
 	for _, id := range s.w.order {
 		nd := s.w.nodes[id]
-		if nd.id == s.node.id || !s.connected(nd.id) {
+		if nd.id == s.node.id || !s.connected(nd.id) || s.w.crashed[nd.id] {
 			continue
 		}
 		if nd.byz && s.w.withhold {
@@ -283,7 +284,7 @@ func newWorld(spec wSpec) (*wWorld, error) {
 		partition: map[NodeID]int{}, blocks: map[hotstuff.Hash]*hotstuff.Block{},
 		dropProb: spec.dropProb, dupProb: spec.dupProb, withhold: spec.withhold,
 		aggOf: map[hotstuff.Hash]*hotstuff.AggregateQC{}, timeoutIdx: map[string]wTimeoutInfo{},
-		timeoutsSeen: map[hotstuff.View][]hotstuff.TimeoutMsg{},
+		timeoutsSeen: map[hotstuff.View][]hotstuff.TimeoutMsg{}, crashed: map[NodeID]bool{},
 	}
 	w.regBlock(hotstuff.GetGenesis())
 	isIn := func(l []hotstuff.ID, x hotstuff.ID) bool {
